@@ -74,3 +74,9 @@ pub use swimos_introspection::IntrospectionConfig;
 use swimos_utilities::byte_channel::{ByteReader, ByteWriter};
 
 type Io = (ByteWriter, ByteReader);
+
+/// Verification hooks: re-exports of internal components for the model checking harness.
+#[cfg(swimos_verif)]
+pub mod verif_hooks {
+    pub use crate::in_memory_store::{InMemoryNodePersistence, InMemoryPlanePersistence};
+}
